@@ -1,6 +1,6 @@
 """C12 driver: NoteContainer behaviours and shorthand constructors."""
 from mingus.containers import Note, NoteContainer
-from .common import call, nm, txt, integer, boolean, names, Shape
+from .common import observe, call, nm, txt, integer, boolean, names, Shape
 
 
 def proj(nc):
@@ -101,7 +101,7 @@ def run_case(c):
         for a in steps:
             inp = {kk: vv for kk, vv in a.items() if kk != "op"}
             rec = call(a["op"], inp, lambda: apply(nc, a), lambda _: 0)
-            rec["obs"] = proj(nc)
+            observe(rec, lambda: proj(nc), R[-1]["obs"] if R else [])
             rec["others"] = [{"built": b, "now": proj(o)} for b, o in KEPT]
             R.append(rec)
             if c.get("queries", True):
